@@ -119,6 +119,7 @@ def answer (toks : List String) : String :=
       | none => "raise:IndexError"
   | ["cnsfacts"] =>
       s!"{Pyunicorn.Generated.StructC15.cnsMirrorAxis} {Pyunicorn.Generated.StructC15.cnsInPlace}"
+  | ["rankof_model", s] => if decide (RankOf (rats s) (ranks (rats s))) then "1" else "0"
   | ["rankof", s, idx] => if decide (RankOf (rats s) (nats idx)) then "1" else "0"
   | ["wrap", bits, x] => toString (wrapInt bits.toNat! ((ints x).headD 0))
   | ["white", d, p] => showOpt (showMat showRats) (whiteNoise (matOf rats d) (matOf nats p))
